@@ -66,12 +66,12 @@ def stepInplace (a : Addr) (r : R Addr) : Addr × Option Err :=
 /-- `a | n` -/
 def pyOr (a : Nat) : Int → Int
   | .ofNat n => .ofNat (a ||| n)
-  | .negSucc m => .negSucc (m - (m &&& a))         -- a | ~m = ~(m & ~a)
+  | .negSucc m => .negSucc (m ^^^ (m &&& a))       -- a | ~m = ~(m & ~a);  m & ~a = m ^ (m & a)
 
 /-- `a & n` -/
 def pyAnd (a : Nat) : Int → Int
   | .ofNat n => .ofNat (a &&& n)
-  | .negSucc m => .ofNat (a - (a &&& m))           -- a & ~m
+  | .negSucc m => .ofNat (a ^^^ (a &&& m))         -- a & ~m = a ^ (a & m)
 
 /-- `a ^ n` -/
 def pyXor (a : Nat) : Int → Int
